@@ -202,6 +202,11 @@ func (C11) Generate(r *rand.Rand, tier string, idx int) *drv.Scenario {
 			steps = append(steps, drv.Op{Op: "par", Sub: sub})
 			// commit everything that got created so that later batches have parents
 			steps = append(steps, drv.Op{Op: "commitall", M: int64(keep)})
+			if r.IntN(4) == 0 {
+				// the id counters and caches persisted by the concurrent requests must be the newest ones:
+				// ids handed out after the restart must not collide with those of the batch
+				steps = append(steps, drv.Op{Op: "restart", Mode: "kill"})
+			}
 			for i := 1; i < next; i++ {
 				if i != keep {
 					locked = append(locked, i)
